@@ -25,6 +25,8 @@ var formats = []format{
 	{"xtab", []string{"--ixtab"}, []string{"--oxtab"}, "xtab", "xtab"},
 	{"nidx-in", []string{"--inidx", "--ifs", "space"}, []string{"--odkvp"}, "nidx", "dkvp"},
 	{"nidx-out", []string{"--idkvp"}, []string{"--onidx", "--ofs", "space"}, "dkvp", "nidx"},
+	{"pprint", []string{"--ipprint"}, []string{"--opprint"}, "pprint", "pprint"},
+	{"csvlite", []string{"--icsvlite"}, []string{"--ocsvlite"}, "csvlite", "csvlite"},
 }
 
 func formatByName(n string) *format {
@@ -40,15 +42,13 @@ func formatByName(n string) *format {
 // (file-formats.md)? Values outside the domain are not generated for that
 // format; evidence counts both sides.
 func inDomainOne(f string, v string) bool {
-	if strings.ContainsAny(v, "\n\r") {
-		// embedded line breaks: only CSV can carry them (inside quotes)
-		if f != "csv" {
-			return false
-		}
-		// a bare CR is rewritten by line-ending handling in readers; keep LF and CRLF out too: RFC-4180
-		// allows them, but Miller documents CRLF/LF line-ending normalisation, so the byte-for-byte law
-		// is not stated for them.
+	if strings.Contains(v, "\r") {
+		// CR: readers document CRLF/LF line-ending normalisation, so the byte-for-byte law is not stated for it
 		return false
+	}
+	if strings.Contains(v, "\n") {
+		// an embedded line feed: only CSV can carry it (inside double quotes, RFC-4180)
+		return f == "csv"
 	}
 	switch f {
 	case "dkvp":
@@ -64,6 +64,15 @@ func inDomainOne(f string, v string) bool {
 	case "nidx":
 		// space-separated, repeated separators collapse: no empty values, no spaces
 		return v != "" && !strings.Contains(v, " ")
+	case "pprint":
+		// space-aligned columns: no empty values (written as "-"), no spaces; a line starting with '+' or '|' is
+		// barred-pprint decoration to the reader, so such values (possible first cell) are outside the domain
+		// "-" is the format's spelling of the empty value
+		return v != "" && v != "-" && !strings.Contains(v, " ") && v[0] != '+' && v[0] != '|'
+	case "csvlite":
+		// "CSV-lite naively splits lines on newline, and fields on comma -- embedded commas and newlines are not
+		// escaped in any way": no separator, and no double quote (quote handling is only loosely specified)
+		return !strings.ContainsAny(v, ",\"")
 	}
 	return false
 }
@@ -99,7 +108,26 @@ func encode(f string, recs [][]kv) string {
 			}
 			sb.WriteByte('\n')
 		}
-	case "csv", "tsv":
+	case "pprint":
+		if len(recs) > 0 {
+			for i, p := range recs[0] {
+				if i > 0 {
+					sb.WriteByte(' ')
+				}
+				sb.WriteString(p.k)
+			}
+			sb.WriteByte('\n')
+		}
+		for _, r := range recs {
+			for i, p := range r {
+				if i > 0 {
+					sb.WriteByte(' ')
+				}
+				sb.WriteString(p.v)
+			}
+			sb.WriteByte('\n')
+		}
+	case "csv", "tsv", "csvlite":
 		sep := byte(',')
 		if f == "tsv" {
 			sep = '\t'
@@ -223,9 +251,32 @@ func decode(f string, out string) [][]kv {
 			}
 			recs = append(recs, r)
 		}
-	case "csv", "tsv":
+	case "pprint":
+		var header []string
+		for _, line := range strings.Split(out, "\n") {
+			if line == "" {
+				header = nil // a new block (changed keys) starts with its own header line
+				continue
+			}
+			cells := spaceFields(line)
+			if header == nil {
+				header = cells
+				continue
+			}
+			if len(cells) != len(header) {
+				// a value containing spaces (or an empty key) cannot be told apart in this format: not an input record of ours
+				recs = append(recs, []kv{{"", line}})
+				continue
+			}
+			r := make([]kv, len(cells))
+			for i, c := range cells {
+				r[i] = kv{header[i], c}
+			}
+			recs = append(recs, r)
+		}
+	case "csv", "tsv", "csvlite":
 		var rows [][]string
-		if f == "csv" {
+		if f == "csv" || f == "csvlite" {
 			rows = parseCSV(out)
 		} else {
 			for _, line := range strings.Split(out, "\n") {
@@ -286,4 +337,15 @@ func decode(f string, out string) [][]kv {
 		}
 	}
 	return recs
+}
+
+// spaceFields splits on runs of the ASCII space only (the PPRINT separator); TAB, NBSP etc. are data.
+func spaceFields(line string) []string {
+	var out []string
+	for _, c := range strings.Split(line, " ") {
+		if c != "" {
+			out = append(out, c)
+		}
+	}
+	return out
 }
